@@ -14,7 +14,13 @@ import (
 // Rand returns a deterministic PRG seeded by a rapid draw; use it for bulk
 // content only (message bytes, uniform scalars), never for structure.
 func Rand(t *rapid.T, label string) *rand.Rand {
-	s := rapid.Uint64().Draw(t, label)
+	// rapid's Uint64 is heavily biased towards short bit lengths (seeds would collide);
+	// eight byte draws give a well spread seed and still shrink towards zero.
+	bs := rapid.SliceOfN(rapid.Byte(), 8, 8).Draw(t, label)
+	var s uint64
+	for _, b := range bs {
+		s = s<<8 | uint64(b)
+	}
 	return rand.New(rand.NewSource(int64(s)))
 }
 
@@ -24,9 +30,26 @@ func RandBytes(r *rand.Rand, n int) []byte {
 	return b
 }
 
-// Pick draws one of the given strings.
+// Uniform draws an integer in [lo,hi] without rapid's bias towards small
+// values (rapid's own integer and index generators favour short bit lengths,
+// which starves high positions and late list entries): four byte draws are
+// hashed and reduced. Still a pure function of rapid's bit stream.
+func Uniform(t *rapid.T, label string, lo, hi int) int {
+	if hi <= lo {
+		return lo
+	}
+	bs := rapid.SliceOfN(rapid.Byte(), 4, 4).Draw(t, label)
+	h := uint64(14695981039346656037)
+	for _, b := range bs {
+		h = (h ^ uint64(b)) * 1099511628211
+	}
+	h ^= h >> 29
+	return lo + int(h%uint64(hi-lo+1))
+}
+
+// Pick draws one of the given strings, uniformly (repeat an entry to weight it).
 func Pick(t *rapid.T, label string, xs ...string) string {
-	return rapid.SampledFrom(xs).Draw(t, label)
+	return xs[Uniform(t, label, 0, len(xs)-1)]
 }
 
 func Int(t *rapid.T, label string, lo, hi int) int { return rapid.IntRange(lo, hi).Draw(t, label) }
@@ -61,12 +84,12 @@ func Bytes32(t *rapid.T, label string) ([]byte, string) {
 	b := RandBytes(r, 32)
 	switch cls {
 	case "lead00":
-		k := rapid.IntRange(1, 31).Draw(t, label+".k")
+		k := Uniform(t, label+".k", 1, 31)
 		for i := 0; i < k; i++ {
 			b[i] = 0
 		}
 	case "leadFF":
-		k := rapid.IntRange(1, 31).Draw(t, label+".k")
+		k := Uniform(t, label+".k", 1, 31)
 		for i := 0; i < k; i++ {
 			b[i] = 0xff
 		}
@@ -112,7 +135,7 @@ func Bytes32(t *rapid.T, label string) ([]byte, string) {
 		for i := range b {
 			b[i] = 0
 		}
-		p := rapid.IntRange(0, 255).Draw(t, label+".pos")
+		p := Uniform(t, label+".pos", 0, 255)
 		b[p>>3] = 0x80 >> uint(p&7)
 	case "extbytes":
 		for i := range b {
